@@ -245,19 +245,31 @@ func vfC08Positions(n, full int) (pos []int, all bool) {
 	return pos, false
 }
 
-// vfC08RefFletcher is an independent Fletcher-32 in the writer's convention (16-bit
-// little-endian words, an odd trailing byte is a word with high byte 0, both sums modulo
-// 65535), computed in closed form: sum1 = S w_k, sum2 = S (m-k) w_k.
+// vfC08RefFletcher is an independent Fletcher-32 as the HDF5 format defines it
+// (H5_checksum_fletcher32): 16-bit big-endian words, an odd trailing byte is the high byte
+// of a word, both sums in one's-complement arithmetic (a non-zero multiple of 65535 is
+// represented as 0xFFFF, zero only for all-zero sums), computed in closed form:
+// sum1 = S w_k, sum2 = S (m-k) w_k.
 func vfC08RefFletcher(d []byte) uint32 {
 	m := (len(d) + 1) / 2
 	var s1, s2 uint64
+	nz1, nz2 := false, false
 	for k := 0; k < m; k++ {
-		w := uint64(d[2*k])
+		w := uint64(d[2*k]) << 8
 		if 2*k+1 < len(d) {
-			w |= uint64(d[2*k+1]) << 8
+			w |= uint64(d[2*k+1])
+		}
+		if w != 0 {
+			nz1, nz2 = true, true
 		}
 		s1 = (s1 + w) % 65535
 		s2 = (s2 + (uint64(m-k)%65535)*(w%65535)) % 65535
+	}
+	if s1 == 0 && nz1 {
+		s1 = 0xFFFF
+	}
+	if s2 == 0 && nz2 {
+		s2 = 0xFFFF
 	}
 	return uint32(s2)<<16 | uint32(s1)
 }
